@@ -71,6 +71,18 @@ def better_origin(candidate: object, fallback: object) -> object:
         return fallback
 
 
+def own_frame(obj: object) -> Optional[types.FrameType]:
+    """Returns the frame of the coroutine, generator, or async generator *obj*,
+    or None if *obj* is something else or has finished."""
+    if isinstance(obj, types.CoroutineType):
+        return obj.cr_frame
+    if isinstance(obj, types.GeneratorType):
+        return obj.gi_frame
+    if isinstance(obj, types.AsyncGeneratorType):
+        return obj.ag_frame
+    return None
+
+
 class ExtractOptions(threading.local):
     with_contexts: bool = cast(bool, None)
     recurse_child_tasks: bool = cast(bool, None)
@@ -123,14 +135,10 @@ def extract_iter(
         ):
             origin, current, depth = to_unwrap.popleft()
             if isinstance(current, types.FrameType):
-                if not isinstance(
-                    origin,
-                    (
-                        types.CoroutineType,
-                        types.GeneratorType,
-                        types.AsyncGeneratorType,
-                    ),
-                ):
+                if own_frame(origin) is not current:
+                    # Only the frame of a generator-like object itself has
+                    # that object as its origin, not (if it's running)
+                    # the frames of the functions that it's calling
                     origin = None
                 current = Frame(pyframe=current, origin=origin)
             if isinstance(current, Frame):
